@@ -646,6 +646,31 @@ fn build_case(ctl: &[u8], excl: &[String]) -> Built {
             items.push(Spec::Use { paths: vec![p.clone()] });
             g.defect = Some(format!("use of the missing path {}", p.join("::")));
         }
+        10 => {
+            // an impl block without functions (or with one) for a type that is not registered, at the root
+            // or inside a module
+            fn strip(s: &mut Vec<Spec>) {
+                s.retain(|it| !matches!(it, Spec::Type { marker: 5, .. }) && !matches!(it, Spec::Impl { marker: 5, .. }) && !matches!(it, Spec::Function { marker: 5, shape: 1..=6, .. }) && !matches!(it, Spec::Constant { marker: Some(5), .. }));
+                for it in s.iter_mut() {
+                    if let Spec::Module { children, .. } = it {
+                        strip(children);
+                    }
+                }
+            }
+            strip(&mut items);
+            let methods = if g.c.chance(170) { vec![] } else { vec![("lonely".to_string(), false, 997)] };
+            let imp = Spec::Impl { marker: 5, methods };
+            let mods: Vec<usize> = items.iter().enumerate().filter(|(_, it)| matches!(it, Spec::Module { name, .. } if Model::valid_name(name))).map(|(i, _)| i).collect();
+            if !mods.is_empty() && g.c.chance(100) {
+                let k = mods[g.c.below(mods.len())];
+                if let Spec::Module { children, .. } = &mut items[k] {
+                    children.push(imp);
+                }
+            } else {
+                items.push(imp);
+            }
+            g.defect = Some("impl block (without functions) for an unregistered type".into());
+        }
         5 => {
             items.push(Spec::Function { name: "needs_unregistered".into(), shape: 1, marker: 5, tag: 998 });
             // remove every registration of marker 5
